@@ -613,6 +613,10 @@ func (s *Share) instr(fn *ssa.Function, in ssa.Instruction) {
 		s.set(x, s.get(x.X))
 	case *ssa.Next:
 		base := s.get(x.Iter)
+		if rng, ok := x.Iter.(*ssa.Range); ok {
+			// the iterator itself has an opaque type that carries no taint: take it from what is ranged over
+			base = base.join(s.get(rng.X))
+		}
 		s.set(x, tt{base.deep, base.deep})
 	case *ssa.Extract:
 		s.set(x, s.get(x.Tuple))
